@@ -68,8 +68,7 @@ Definition mr_branch (d : adim) (x : ident) : option (res ident) :=
 (* _ElementIdShim.translate_element_id for array types.  Ok INone is Python's None.
    Repaired code (commit "fix: translate_element_id(None) returns None instead of raising
    TypeError"): the final int(_id) is wrapped in `except (ValueError, TypeError): return None`, so
-   None (a null in an id list, or a stale id that an earlier shim rewrote to None in the caller's
-   dict) translates to None.  The int() of the special MR branch is NOT inside that try. *)
+   None (a null in an id list) translates to None.  The int() of the special MR branch is NOT inside that try. *)
 Definition translate (d : adim) (x : ident) : res ident :=
   if py_in x (aliases d) then Ok x else
   match py_index x (raw_ids d) with
@@ -162,24 +161,25 @@ Definition opt_res {A B} (f : A -> res B) (o : option A) : res (option B) :=
   | Some a => match f a with Ok b => Ok (Some b) | Raise e => Raise e end
   end.
 
-(* shimmed_dimension_transforms_dict: the caller's dict is rewritten IN PLACE, slot after slot;
-   an exception leaves the slots rewritten so far in their new state.
-   Result: (content of the dict afterwards, exception raised if any). *)
+(* shimmed_dimension_transforms_dict, REPAIRED code (commit 51c19c01 "fix: translating a dimension's
+   transforms no longer rewrites the caller's dict"): the levels that get rewritten are copied
+   first (shim = dict(shim); shim["order"] = dict(shim["order"]); fixed = dict(fixed)), so the
+   result is a dict OF THE DIMENSION'S OWN and the caller's dict stays as given - also when a
+   translation raises half-way.
+   Result: (the dict the dimension uses, None) or (the caller's dict - all there is, untouched -,
+   Some exception): with an exception no translated dict exists. *)
 Definition shim_xf (d : adim) (t : xf) : xf * option exn :=
   match opt_res (replaced_elements d) (x_elements t) with
   | Raise ex => (t, Some ex)
   | Ok e' =>
-    let t1 := mk_xf e' (x_ids t) (x_top t) (x_bottom t) in
     match opt_res (replaced_ids d) (x_ids t) with
-    | Raise ex => (t1, Some ex)
+    | Raise ex => (t, Some ex)
     | Ok ids' =>
-      let t2 := mk_xf e' ids' (x_top t) (x_bottom t) in
       match opt_res (replaced_ids d) (x_top t) with
-      | Raise ex => (t2, Some ex)
+      | Raise ex => (t, Some ex)
       | Ok top' =>
-        let t3 := mk_xf e' ids' top' (x_bottom t) in
         match opt_res (replaced_ids d) (x_bottom t) with
-        | Raise ex => (t3, Some ex)
+        | Raise ex => (t, Some ex)
         | Ok bot' => (mk_xf e' ids' top' bot', None)
         end
       end
@@ -293,7 +293,8 @@ Definition dt_replaced_elements (d : dtdim) (e : edict) : res edict :=
   end.
 
 (* ---- the response's dimension dict (shimmed_dimension_dict) ------------------------------ *)
-(* every element of an array dimension gains a "subvar_alias" field (in the CALLER's response);
+(* the ONE in-place edit of a caller-owned object that remains: every element of an array dimension
+   gains a "subvar_alias" field (in the CALLER's response; datetime elements a "datetime_value");
    _build_element_id then uses it as the element id.  An element = (item, current subvar_alias) *)
 Definition shim_dim_dict (els : list (item * option ident)) : list (item * option ident) :=
   map (fun p => (fst p, Some (alias_of (fst p)))) els.
